@@ -253,6 +253,30 @@ def check(run: Run) -> None:
                 run.report(sig, {"definition": text, "ops": [{"op": "history", "history": log[-12:], **problem}]})
                 break
 
+    # two cstruct objects go through the same definitions; one of them parses half way: a count that is only evaluated at read time (the constant and
+    # the type it names are defined after the structure) must follow the definitions, not an earlier parse
+    LATE = "struct record { uint8 kind; uint16 slots[NUM_SLOTS * 2]; uint8 pad[sizeof(trailer)]; uint8 check; };"
+    for compiled in (False, True):
+        n_ops += 2
+        outs = []
+        for parse_between in (False, True):
+            cs_l = cstruct()
+            cs_l.load(LATE, compiled=compiled)
+            cs_l.load("#define NUM_SLOTS 1\nstruct trailer { uint8 a; };", compiled=compiled)
+            if parse_between:
+                first = cs_l.record(bytes(range(1, 17)))
+                if (list(first.slots), list(first.pad), first.check) != ([0x0302, 0x0504], [6], 7):
+                    failures += 1
+                    run.report("C14/late-count", {"definition": LATE, "ops": [{"op": "parse under NUM_SLOTS = 1", "observed": repr(first), "expected": "2 slots, 1 pad byte"}]})
+            cs_l.load("#define NUM_SLOTS 2")
+            cs_l.trailer.add_field("b", cs_l.uint8)
+            r = cs_l.record(bytes(range(1, 17)))
+            outs.append((list(r.slots), list(r.pad), r.check, r.dumps()))
+        want = ([0x0302, 0x0504, 0x0706, 0x0908], [10, 11], 12, bytes(range(1, 13)))
+        if outs[0] != want or outs[1] != want:
+            failures += 1
+            run.report("C14/late-count", {"definition": LATE, "load_kwargs": {"compiled": compiled, "align": False},
+                       "ops": [{"op": "NUM_SLOTS 1 -> (parse) -> NUM_SLOTS 2, trailer extended -> parse", "observed": repr(outs)[:400], "expected": repr(want)}]})
     for prob in lookalike_problems()[:6]:
         failures += 1
         n_ops += 1
